@@ -148,6 +148,23 @@ def r1(ctx):
         ctx.check('R1', '%s:too-big-returns-EMSGSIZE' % fname, ok, f, 'too big returns -EMSGSIZE and sends nothing', 'the too-big edge does not return -EMSGSIZE')
 
 
+def _refusal(prog, f, e, depth=2):
+    """the returned value says "not sent": -EAGAIN, or the result of a helper that returns -EAGAIN unless it has a (negative)
+    disconnect error to report:  (x < 0) ? x : -EAGAIN"""
+    u = unwrap(e) if e is not None else {}
+    if cval(u) == EAGAIN:
+        return True
+    if u.get('k') == 'cond':
+        c, a, b = unwrap(u['c']), unwrap(u['t']), unwrap(u['f'])
+        if c.get('k') == 'bin' and c.get('op') == '<' and cval(unwrap(c['r'])) == 0 and estr(unwrap(c['l'])) == estr(a) and cval(b) == EAGAIN:
+            return True
+        return False
+    if u.get('k') == 'call' and depth > 0:
+        cands = [g for g in prog.fns.get(callee_of(u) or '', []) if g.file == f.file]
+        return len(cands) == 1 and bool(cands[0].returns()) and all(_refusal(prog, cands[0], r.e, depth - 1) for r in cands[0].returns())
+    return False
+
+
 def r2(ctx):
     prog = ctx.prog
     for fname in ('qb_ipcc_send', 'qb_ipcc_sendv', 'qb_ipcc_sendv_recv'):
@@ -186,8 +203,8 @@ def r2(ctx):
                         pos = any(a.ls == resv and a.op == '>' and a.rc == 0 for a in g)
                         rets, _e, _n = f.search(('edge', b.id, t), goal=lambda ev: ev.kind == 'RETURN')
                         hits, _e2, _n2 = f.search(('edge', b.id, t), goal=lambda ev: any(ev is s for s in sends))
-                        ok = pos and bool(rets) and all(cval(unwrap(ev.e)) == EAGAIN for (ev, _p) in rets) and not hits
-        ctx.check('R2', '%s:blocked-returns-EAGAIN' % fname, ok, fc, 'with flow control on (0 < res <= fc_enable_max) the call returns -EAGAIN and sends nothing',
+                        ok = pos and bool(rets) and all(_refusal(prog, f, ev.e) for (ev, _p) in rets) and not hits
+        ctx.check('R2', '%s:blocked-returns-EAGAIN' % fname, ok, fc, 'with flow control on (0 < res <= fc_enable_max) the call returns -EAGAIN (or the disconnect error found while looking at the sockets) and sends nothing',
                   'flow control on does not lead to -EAGAIN without sending')
 
 
